@@ -19,6 +19,7 @@ META = {
 }
 META["explanation"] += " The dynamic limit / count input of Head, Tail and Skip is an eyeball Subscriber: its poll functions are checked with the same typestate (R02.7) and the leaf's pending => registered clause (R02.2)."
 META["explanation"] += ' The waker-list inventory (R02.3 wake all, R02.4 full drain after every version write, R02.5 only push / drain / take) is evaluated here: a registered waker stays registered until it is woken.'
+META["explanation"] += ' Also evaluated here: the ready-buffer rules (R13.1, R13.3, R13.5-R13.8) - returning Pending whenever the source is Pending is right only because nothing is parked in the ready buffer across such a return (batched containers cannot buffer). The typestate runs on combinator-desugared bodies and has the locally-owned-input clause (see C02).'
 
 
 def run(ctx):
@@ -37,6 +38,11 @@ def run(ctx):
         wakers.check_rearm(ctx, "R14.3", f, sites)
     floor = 2 + (6 if UT in have else 0) + (2 if (EY in have and ctx.has_async) else 0)
     ctx.floor("R14.1", n, floor)
+    # the adapters return Pending whenever the source is Pending, without looking at their ready buffers again: that is only right
+    # because nothing is parked there across such a return (single diffs: drained at the top of the loop; batches: cannot buffer)
+    if UT in have:
+        from . import groups
+        groups.util_buffers(ctx)
     # the dynamic limit / count of Head, Tail and Skip is an eyeball Subscriber: its poll paths are inputs of the adapters
     if EY in have:
         from . import groups, leaf
